@@ -231,8 +231,8 @@ Inductive tev :=          (* what the result object and the addOnException handl
 Inductive cleanup :=      (* an entry of TestCase._cleanups *)
 | KUser (tok : nat) (body : list act)
 | KRestore (attr : nat) (old : option nat)        (* MonkeyPatcher.restore *)
-| KGather (src : details)                         (* gather_details(fixture.getDetails(), self.getDetails()) *)
-| KFxClean (cs : list (nat * option exc)).        (* fixture.cleanUp *)
+| KGather (fx : fixture)                          (* gather_details(fixture.getDetails(), self.getDetails()) *)
+| KFxClean (fx : fixture).                        (* fixture.cleanUp *)
 
 Record st := {
   log : list lev;
@@ -333,7 +333,7 @@ Definition use_fixture (fx : fixture) (s : st) : st * option exc :=
   match fx_fail fx with
   | None =>
       (* addCleanup(fixture.cleanUp); addCleanup(gather_details, fixture.getDetails(), self.getDetails()) *)
-      (push (KGather (fx_source fx)) (push (KFxClean (fx_cleanups fx)) s1), None)
+      (push (KGather fx) (push (KFxClean fx) s1), None)
   | Some e =>
       if fx_old fx then
         (* the old protocol: _details is still there; gather it, re-raise what setUp raised *)
@@ -396,8 +396,8 @@ Definition run_cleanup (k : cleanup) (s : st) : st * option exc :=
        | Some v => add_log [LSet a v] (set_attrs (aput a v (attrs s)) s)
        | None => add_log [LDel a] (set_attrs (adel a (attrs s)) s)
        end, None)
-  | KGather src => (gather src s, None)
-  | KFxClean cs => fx_cleanup cs s
+  | KGather fx => (gather (fx_source fx) s, None)
+  | KFxClean fx => fx_cleanup (fx_cleanups fx) s
   end.
 
 (* _run_user(fn): the state after, and whether it returned exception_caught *)
